@@ -3,6 +3,7 @@ package subrig
 import (
 	"fmt"
 	"runtime"
+	"strings"
 	"sync"
 	"time"
 )
@@ -319,6 +320,39 @@ func overlappingUpdates(slow string, targeted bool, three bool) func(sc *Script)
 	}
 }
 
+// filterValues: row 14 (no race): IN predicates with three value templates on one field, their
+// negation and an AND / OR combination; events equal to the first, a middle, the last and no value.
+func filterValues(field int, kinds []string) func(sc *Script) {
+	return func(sc *Script) {
+		in := InFilter(field, kinds, 1, 3, 4)
+		other := InFilter((field+1)%len(filterFields), kinds, 3, 5)
+		sc.step("subscribe", func() {
+			specs := []FilterSpec{
+				in,
+				{Root: &FNode{Op: "not", Kids: []*FNode{in.Root}}},
+				{Root: &FNode{Op: "or", Kids: []*FNode{InFilter(field, kinds, 0).Root, other.Root}}},
+				{Root: &FNode{Op: "and", Kids: []*FNode{in.Root, {Op: "not", Kids: []*FNode{other.Root}}}}},
+				{},
+			}
+			for i, f := range specs {
+				s := sc.newSub(fmt.Sprintf("F%d", i), SubSpec{Key: 0, Lane: i, Variant: i % NumVariants, Filter: f, Sync: i == 2})
+				sc.r.Subscribe(s)
+			}
+			sc.inst = sc.r.WaitInstance(0, 1, sc.wait())
+		})
+		sc.step("events", func() {
+			for _, g := range []int{1, 3, 4, 2, 5, 0} {
+				sc.r.Emit(sc.inst, g, nil, false)
+			}
+		})
+		sc.step("targeted", func() {
+			for _, g := range []int{4, 2} {
+				sc.r.Emit(sc.inst, g, sc.subs["F0"], false)
+			}
+		})
+	}
+}
+
 // heartbeatVsRemoval: row 5. failing: the writer's Heartbeat returns an error once released.
 func heartbeatVsRemoval(competitor string, failing bool) func(sc *Script) {
 	return func(sc *Script) {
@@ -586,6 +620,11 @@ func ScriptCases(c13 bool) []ScriptCase {
 		for _, comp := range []string{"unsub", "rmclient", "shutdown"} {
 			add(ScriptCase{Name: "heartbeat vs " + comp, Row: 5, build: heartbeatVsRemoval(comp, false)})
 			add(ScriptCase{Name: "failing heartbeat vs " + comp, Row: 5, build: heartbeatVsRemoval(comp, true)})
+		}
+		for field := range filterFields {
+			for _, kinds := range [][]string{{"lit"}, {"var"}, {"lit", "var", "arr"}, {"var", "lit", "cat"}, {"arr", "arr", "lit"}} {
+				add(ScriptCase{Name: fmt.Sprintf("filter values: field %s, templates %v", strings.Join(filterFields[field].path[2:], "."), kinds), Row: 14, build: filterValues(field, kinds)})
+			}
 		}
 		add(ScriptCase{Name: "flush failure on first event", Row: 6, build: flushFailure(true)})
 		add(ScriptCase{Name: "flush failure on second event", Row: 6, build: flushFailure(false)})
